@@ -8,7 +8,7 @@ From Lal Require Import Common.LBytes Common.Res Net.NetChk Net.NetChkProofs
   Net.NetAuHeader Net.NetAuHeaderProofs Net.NetUnpack Net.NetUnpackProofs Net.NetInSess Net.NetInSessProofs
   Net.NetInSessSetup Net.NetInSessSetupProofs Net.NetPs Net.NetPsProofs
   Net.NetStr Net.NetSdpRaw Net.NetUrlPath Net.NetRtmpClient Net.NetTextProofs Net.NetHttpMsg Net.NetHttpMsgProofs
-  Net.NetSdpFull Net.NetRtspCmd Net.NetRtspCmdProofs.
+  Net.NetSdpFull Net.NetRtspCmd Net.NetRtspCmdProofs Auth.AuthRtsp Net.NetRtspClient Net.NetRtspClientProofs.
 Open Scope N_scope.
 
 (* ---- 1. RTP header / packet / body ------------------------------------- *)
@@ -285,6 +285,35 @@ Theorem c13_rtsp_cmd_refuted :
 Proof. exact run_cmd_pinned_refuted. Qed.
 Print Assumptions c13_rtsp_cmd_refuted.
 
+(* ---- 10. the RTSP command layer of the client (PullSession / PushSession) ------------------------ *)
+(* ClientCommandSession: OPTIONS, DESCRIBE | ANNOUNCE, SETUP per track (with the 461 fallback to the other
+   transport), PLAY | RECORD, each with the 401 retry (Basic / Digest challenge), then the read loop - for EVERY
+   byte stream the upstream server may send, in every mode (pull / push, interleaved / UDP, any credentials, any
+   sdp to push): the handshake returns, the read loop ends or waits, nothing panics, no loop runs out of fuel *)
+Theorem c13_rtsp_client_total : forall c s, bytes_ok s -> exists st o, client_run true c s = Ok (st, o).
+Proof. exact client_run_total. Qed.
+Print Assumptions c13_rtsp_client_total.
+
+(* ... and it ends in one of four ways: Start returned an error; (push) the sdp does not parse; the session has
+   been reported as ended; or it waits for the keep-alive ticker, which only happens with UDP transport and a
+   server that announces GET_PARAMETER.  No session is left that is neither running nor reported *)
+Theorem c13_rtsp_client_outcome : forall c s st o, client_run true c s = Ok (st, o) ->
+  o = CFailed \/ o = CBadSdp \/ o = CEnded \/ (o = CRunning /\ k_tcp st = false /\ k_getparam st = true).
+Proof. exact client_run_outcome. Qed.
+Print Assumptions c13_rtsp_client_outcome.
+
+(* before the repairs: (1) interleaved pull, no GET_PARAMETER, one more answer after PLAY: the read loop never
+   ends (it spins on the byte it pushes back; in Go not even Dispose stops it, the byte never leaves the buffer);
+   (2) UDP pull, one byte on the command connection after PLAY: the command session is closed, the pull session
+   stays, unreported *)
+Theorem c13_rtsp_client_refuted :
+  client_run false (w_ccfg true) (w_ok ++ w_ok ++ w_ok ++ w_ok) = Err err_out_of_fuel /\
+  (exists st, client_run false (w_ccfg false) (w_ok ++ w_ok ++ w_ok ++ [13]) = Ok (st, CRunning) /\ k_getparam st = false) /\
+  (exists st, client_run true (w_ccfg true) (w_ok ++ w_ok ++ w_ok ++ w_ok) = Ok (st, CEnded)) /\
+  (exists st, client_run true (w_ccfg false) (w_ok ++ w_ok ++ w_ok ++ [13]) = Ok (st, CEnded)).
+Proof. exact client_run_pinned_refuted. Qed.
+Print Assumptions c13_rtsp_client_refuted.
+
 (* non-vacuity: a well-formed packet with CSRC, extension and padding is accepted *)
 Example c13_rtp_nonvacuous :
   exists h, parse_rtp_packet_body true
@@ -322,4 +351,14 @@ Example c13_rtsp_cmd_nonvacuous :
   exists st, run_cmd true (fun _ => true) w_obs false
     ([68; 69; 83; 67; 82; 73; 66; 69; 32; 114; 116; 115; 112; 58; 47; 47; 104; 47; 120; 32; 82; 13; 10; 67; 83; 101; 113; 58; 32; 55; 13; 10; 13; 10] ++ w_setup_udp)
     = Ok (st, [CvCbDescribe]) /\ cs_role st = RSub None /\ cs_dseq st = [55].
+Proof. eexists. split; [vm_compute; reflexivity|split; reflexivity]. Qed.
+
+(* non-vacuity: a Digest challenge on OPTIONS, credentials u / (empty): four requests - OPTIONS, OPTIONS again,
+   DESCRIBE, PLAY (the description has no track) -, the last three carry the Authorization header *)
+Example c13_rtsp_client_nonvacuous :
+  exists st, client_run true (mk_ccfg false true [117] [] [114; 116; 115; 112; 58; 47; 47; 104; 47; 120] [])
+    ([82; 84; 83; 80; 47; 49; 46; 48; 32; 52; 48; 49; 32; 85; 13; 10; 87; 87; 87; 45; 65; 117; 116; 104; 101; 110; 116; 105; 99; 97; 116; 101; 58; 32; 68; 105; 103; 101; 115; 116; 32; 114; 101; 97; 108; 109; 61; 34; 114; 34; 44; 32; 110; 111; 110; 99; 101; 61; 34; 110; 34; 13; 10; 13; 10] ++ w_ok ++ w_ok ++ w_ok) = Ok (st, CEnded) /\
+  map rq_method (k_out st) = [m_play; m_describe; t_options; t_options] /\
+  map (fun q => hdr_get h_auth (map (fun kv => (fst kv, [snd kv])) (rq_hdrs q))) (k_out st)
+    = [[68; 105; 103; 101; 115; 116; 32; 117; 115; 101; 114; 110; 97; 109; 101; 61; 34; 117; 34; 44; 32; 114; 101; 97; 108; 109; 61; 34; 114; 34; 44; 32; 110; 111; 110; 99; 101; 61; 34; 110; 34; 44; 32; 117; 114; 105; 61; 34; 114; 116; 115; 112; 58; 47; 47; 104; 47; 120; 34; 44; 32; 114; 101; 115; 112; 111; 110; 115; 101; 61; 34; 82; 34; 44; 32; 97; 108; 103; 111; 114; 105; 116; 104; 109; 61; 34; 77; 68; 53; 34]; [68; 105; 103; 101; 115; 116; 32; 117; 115; 101; 114; 110; 97; 109; 101; 61; 34; 117; 34; 44; 32; 114; 101; 97; 108; 109; 61; 34; 114; 34; 44; 32; 110; 111; 110; 99; 101; 61; 34; 110; 34; 44; 32; 117; 114; 105; 61; 34; 114; 116; 115; 112; 58; 47; 47; 104; 47; 120; 34; 44; 32; 114; 101; 115; 112; 111; 110; 115; 101; 61; 34; 82; 34; 44; 32; 97; 108; 103; 111; 114; 105; 116; 104; 109; 61; 34; 77; 68; 53; 34]; [68; 105; 103; 101; 115; 116; 32; 117; 115; 101; 114; 110; 97; 109; 101; 61; 34; 117; 34; 44; 32; 114; 101; 97; 108; 109; 61; 34; 114; 34; 44; 32; 110; 111; 110; 99; 101; 61; 34; 110; 34; 44; 32; 117; 114; 105; 61; 34; 114; 116; 115; 112; 58; 47; 47; 104; 47; 120; 34; 44; 32; 114; 101; 115; 112; 111; 110; 115; 101; 61; 34; 82; 34; 44; 32; 97; 108; 103; 111; 114; 105; 116; 104; 109; 61; 34; 77; 68; 53; 34]; []].
 Proof. eexists. split; [vm_compute; reflexivity|split; reflexivity]. Qed.
